@@ -332,7 +332,7 @@ func (e *chainEnv) run(tag string, cc chainCase) {
 func i64(v int64) *int64 { return &v }
 
 // curated statements over the standard argument map {"a":5,"b":"abc","c":[5,6,7],"d":{"e":1}}
-var stdArgs = [][2]any{{"a", 5}, {"b", "abc"}, {"c", []any{5, 6, 7}}, {"d", map[string]any{"e": 1}}}
+var stdArgs = [][2]any{{"a", 5}, {"b", "abc"}, {"c", []any{5, 6, 7}}, {"d", map[string]any{"e": 1}}, {"f", []any{}}, {"g", map[string]any{}}}
 
 func passStmts() []pstmt {
 	return []pstmt{
@@ -342,6 +342,10 @@ func passStmts() []pstmt {
 		{kind: "==", sel: ".d.e", val: J("1")}, {kind: "not", subs: []pstmt{{kind: "==", sel: ".a", val: J("6")}}},
 		{kind: "or", subs: []pstmt{{kind: "==", sel: ".a", val: J("1")}, {kind: "==", sel: ".b", val: J(`"abc"`)}}},
 		{kind: "==", sel: ".c", val: J("[5,6,7]")}, {kind: "==", sel: ".d", val: J(`{"e":1}`)},
+		// quantifiers over a map visit its values; nothing to visit satisfies all; optional data missing under not
+		{kind: "all", sel: ".d", subs: []pstmt{{kind: "==", sel: ".", val: J("1")}}}, {kind: "any", sel: ".d", subs: []pstmt{{kind: "==", sel: ".", val: J("1")}}},
+		{kind: "all", sel: ".f", subs: []pstmt{{kind: "==", sel: ".", val: J("1")}}}, {kind: "all", sel: ".g", subs: []pstmt{{kind: "==", sel: ".", val: J("1")}}},
+		{kind: "not", subs: []pstmt{{kind: "==", sel: ".zz?", val: J("1")}}}, {kind: "all", sel: ".c[3:]", subs: []pstmt{{kind: "==", sel: ".", val: J("1")}}},
 	}
 }
 func failStmts() []pstmt {
@@ -353,6 +357,14 @@ func failStmts() []pstmt {
 		// equality on lists and maps is equality of the whole value: a prefix, the empty value, a sub-map do not do
 		{kind: "==", sel: ".c", val: J("[5,6]")}, {kind: "==", sel: ".c", val: J("[]")}, {kind: "==", sel: ".d", val: J("{}")},
 		{kind: "==", sel: ".c", val: J("[5,6,7,8]")}, {kind: "==", sel: ".", val: J(`{"a":5}`)}, {kind: "==", sel: ".d", val: J(`{"e":1,"f":2}`)},
+		// quantifiers bind when there is nothing, or nothing of the right kind, to visit: all / any over a scalar, a
+		// string, a missing value; any over an empty list, an empty map, an empty slice; required data missing under not
+		{kind: "all", sel: ".a", subs: []pstmt{{kind: ">", sel: ".", val: J("0")}}}, {kind: "all", sel: ".b", subs: []pstmt{{kind: "like", sel: ".", pat: "*"}}},
+		{kind: "any", sel: ".a", subs: []pstmt{{kind: ">", sel: ".", val: J("0")}}}, {kind: "all", sel: ".zz", subs: []pstmt{{kind: ">", sel: ".", val: J("0")}}},
+		{kind: "any", sel: ".f", subs: []pstmt{{kind: "==", sel: ".", val: J("1")}}}, {kind: "any", sel: ".g", subs: []pstmt{{kind: "==", sel: ".", val: J("1")}}},
+		{kind: "any", sel: ".c[3:]", subs: []pstmt{{kind: ">", sel: ".", val: J("0")}}}, {kind: "all", sel: ".d", subs: []pstmt{{kind: "==", sel: ".", val: J("2")}}},
+		{kind: "not", subs: []pstmt{{kind: "==", sel: ".zz", val: J("1")}}}, {kind: "like", sel: ".a", pat: "*"}, {kind: "like", sel: ".c", pat: "*"},
+		{kind: "all", sel: ".a", subs: []pstmt{{kind: "not", subs: []pstmt{{kind: "==", sel: ".", val: J("0")}}}}},
 	}
 }
 
